@@ -158,6 +158,9 @@ def run(tier):
     for k in (1, 4, 8, 9, 10, 25):
         scheds.append([["S", 1, 40], ["S", 2], ["Y", 0], ["RP", 1, k], ["Y", 0], ["C", 2], ["Y", 0], ["RQ", 1], ["Y", 0], ["S", 3], ["Y", 0], ["RA", 0], ["Y", 0]])
         scheds.append([["S", 1, 300], ["S", 2], ["S", 3], ["Y", 0], ["RP", 2, k], ["C", 3], ["Y", 0], ["C", 1], ["Y", 0], ["RQ", 2], ["Y", 0], ["RA", 0], ["Y", 0]])
+    # a response larger than 64 KiB with the next response already waiting right behind it in the socket
+    for big in (65537, 70000, 131073):
+        scheds.append([["S", 1, big], ["S", 2], ["S", 3, 10], ["Y", 0], ["R", 1], ["R", 2], ["R", 3], ["Y", 0], ["S", 4], ["Y", 0]])
     scheds.append([["S", 1], ["Y", 0], ["C", 1], ["Y", 0], ["T", 90000], ["S", 2], ["Y", 0], ["R", 2], ["Y", 0], ["R", 1], ["Y", 0], ["S", 3], ["Y", 0]])
     scheds.append([["S", 1], ["S", 2], ["Y", 0], ["C", 2], ["T", 61000], ["S", 3], ["S", 4], ["Y", 0], ["RA", 0], ["Y", 0], ["T", 120000], ["S", 5], ["Y", 0]])
     ntr = 0
